@@ -1,22 +1,31 @@
 """
 C06 -- every valid DSDL input yields generated code that builds cleanly on its own.
 
-Domain : DSDL universes (Hypothesis: adversarial name pools, services, deprecated, empty and maximally wide types, 1..3 root
-         namespaces with cross-root references; plus seed-independent exhaustive sub-domains: every pool name as attribute
-         name, every stdlib-macro name in a class of its own, constants at every type extreme, shape corner cases)
-         x target {c, cpp, py} x {serialization on, --omit-serialization-support}
-         x C {compiled as C11 TU, included in a C++14 TU} / C++ {c++14, c++17, c++20, c++17-pmr} (cetl++14-17: generate only).
+Domain : DSDL universes x target {c, cpp, py} x {serialization on, --omit-serialization-support}
+         x C {compiled as C11 TU, included in a C++14 TU} / C++ {c++14, c++17, c++20, c++17-pmr} (cetl++14-17: generate + closure
+         scan only).  Universes:
+           * random (Hypothesis, dsdlgen profile adversarial_nomacro): reserved-name pools at high weight in every position,
+             services, deprecated, multi-version, empty (12 %) and maximally wide (12 %) bodies, doc comments, 1..3 root
+             namespaces with cross-root references (dependent roots generated with --lookup-dir);
+           * seed-independent exhaustive sub-domains so that the signature set does not depend on the seed:
+             extremes (every constant kind at its type extremes), macros (every stdlib-macro name, a class of its own),
+             pool (every pool name as field of a structure and of a union, as constant, as nested namespace), rootnames (pool
+             names as ROOT namespaces, C++ only), shapes (empty / padding-only / constants-only types, empty services, deprecated,
+             versions 0.1 and 255.255, wide arrays, hostile doc comments, reserved namespaces referenced across roots),
+             root-named-numpy / root-named-pydsdl.
 Oracle : (1) nnvg exits 0 for every involved root namespace;
          (2) for EACH generated header a one-line TU `#include "<hdr>"` passes gcc/g++ -fsyntax-only with the project's own
              flag set (parsed from verification/cmake/compiler_flag_sets/common.cmake of the tree under test), include path =
              only the output trees; any diagnostic is a failure;
-         (3) each generated Python module compile()s and imports in a fresh interpreter state (forked from a process that
-             has only numpy and pydsdl loaded; sys.path = stdlib + output dirs + a directory holding only numpy and pydsdl);
-         (4) include / import closure: textual scan -- every #include / import resolves inside the union of the output trees
-             (or is a system header / stdlib, numpy, pydsdl module).
+         (3) each generated Python module compile()s and imports in a fresh interpreter state (fork of a `python -I -S` that
+             has loaded only numpy and pydsdl; sys.path = stdlib + output dirs + a directory holding only numpy and pydsdl);
+         (4) include / import closure: textual scan -- every #include / import-time import resolves inside the union of the
+             output trees (or is a system header / stdlib, numpy, pydsdl module).
 Signatures are root-cause oriented: every diagnostic up to the first hard error (warnings promoted by -Werror do not cascade,
-hard errors do) is mapped to a named cause; configurations that are wholly broken by one cause are re-checked with that one
-cause neutralised so the campaign continues behind it.
+hard errors do) is mapped to a named cause, falling back to <target>|<ser/omit>|diag|<normalised message>.  A cause that can
+be switched off from the outside (missing include -> -include, undefined support macro -> -D) is neutralised and the header is
+compiled again, so the campaign continues behind shallow defects that break a whole configuration (look-behind passes).
+Name-related causes are deliberately coarse (per target and name class; the identifier goes into the description).
 """
 from __future__ import annotations
 
@@ -387,11 +396,21 @@ def run_compiler(mode: dict, outdirs: typing.List[str], hdr: str, extra: typing.
     diags: typing.List[dict] = []
     err = p.stderr.strip()
     if err:
+        # gcc prints one JSON array per front-end pass (normally one; two when the preprocessor gives up); anything else
+        # (cc1 crash, driver message) is not JSON
+        dec = json.JSONDecoder()
+        pos = 0
         try:
-            # gcc prints one JSON array; cc1 crashes etc. are not JSON
-            diags = json.loads(err[err.index("[") :])
+            while pos < len(err):
+                if err[pos] in " \r\n\t":
+                    pos += 1
+                    continue
+                arr, pos = dec.raw_decode(err, pos)
+                if not isinstance(arr, list):
+                    raise ValueError("not a diagnostics array")
+                diags += arr
         except ValueError:
-            diags = [{"kind": "fatal error", "message": "unparsable compiler output: " + err[-300:], "locations": [], "children": []}]
+            diags = [{"kind": "fatal error", "message": "unparsable compiler output: " + err[:300], "locations": [], "children": []}]
     if p.returncode != 0 and not diags:
         diags = [{"kind": "fatal error", "message": f"compiler exit status {p.returncode} without diagnostics", "locations": [], "children": []}]
     return p.returncode, diags, " ".join(compile_cmd(mode, ["$OUT"] if len(outdirs) == 1 else [f"$OUT{i}" for i in range(len(outdirs))], extra)) + f"   <<< #include \"{hdr}\""
@@ -531,6 +550,8 @@ def classify_cc(d: dict, cfg: dict, mode: dict, names: dict, cache: dict, outdir
         return {"cause": "literal", "detail": "tiny-float64-overflow" if tiny and kind == "exceeds-range" else "float-constant-" + kind, "scope": ()}
     if opt.endswith("deprecated-declarations") and "reaching the end of its life" in msg:
         return {"cause": "deprecated-attribute-fires-inside-generated-code", "detail": "", "scope": ()}
+    if opt.endswith("=unused-parameter") and re.search(r"unused parameter '(obj|out_obj)'", msg) and re.search(r"\b(de)?serialize\(", line):
+        return {"cause": "unused-parameter-obj-in-codec-of-type-without-fields", "detail": "", "scope": ()}
     if opt.endswith("=comment"):
         return {"cause": "doc-comment", "detail": "trailing-backslash" if "multi-line comment" in msg else normalise_text(msg), "scope": ()}
     m = re.search(r"has no member named '(\w+)'", msg)
@@ -1354,7 +1375,7 @@ def run(ctx: core.Ctx):
                         continue
                     account(ctx, o, origin, agg)
                     shutil.rmtree(o["udir"], ignore_errors=True)
-            if rejected * 50 > max(1, len(randoms)):
+            if rejected > max(1, len(randoms) // 50):
                 raise core.HarnessError(f"{rejected}/{len(randoms)} generated universes rejected by pydsdl (> 2 %)")
             # bounded reduction of one representative per unknown signature
             if not os.environ.get("VF_NO_SHRINK"):
@@ -1377,6 +1398,9 @@ def run(ctx: core.Ctx):
                                     ctx.set_min_replay(s, describe(v, rp["cfg"], res["s1"], hit[0]) + "\n  DSDL:\n" + dsdl_listing(v), rp)
                 finally:
                     ctx.counting = True
+            for ent in ctx.failures.values():
+                if "\n  DSDL:\n" not in ent["what"] and isinstance(ent["replay"], dict):
+                    ent["what"] += "\n  DSDL:\n" + dsdl_listing(ent["replay"]["universe"])
     finally:
         work.close()
     import resource
